@@ -42,10 +42,11 @@ class Entry:
     src:   ('src', path relative to the source root) | ('build', path relative to the build root) | None
     mode:  explicit install_mode bits or None (=> default permissions masked by install_umask)
     """
-    __slots__ = ('where', 'kind', 'src', 'mode', 'target', 'tag', 'tag_spec', 'sub', 'rule', 'alias', 'oc_unspec', 'cands')
+    __slots__ = ('where', 'kind', 'src', 'mode', 'target', 'tag', 'tag_spec', 'sub', 'rule', 'alias', 'oc_unspec', 'cands',
+                 'dirlink')
 
     def __init__(self, where, kind, rule, src=None, mode=None, target=None, tag=None, tag_spec=True, sub='', alias=False,
-                 oc_unspec=False, cands=None):
+                 oc_unspec=False, cands=None, dirlink=None):
         self.where = where
         self.kind = kind
         self.src = src
@@ -60,6 +61,8 @@ class Entry:
         # no install_tag given: the set of tags the documentation allows for this entry (None in the set = "untagged").
         # One element: the tag is specified; several: the documented rules overlap / are silent, any of them is accepted.
         self.cands = cands
+        # 'follow' | 'nofollow': the entry stands for a symlink to a DIRECTORY inside an install_subdir() source tree
+        self.dirlink = dirlink
 
 
 class Rule:
@@ -366,6 +369,37 @@ BUILDERS: T.Dict[str, T.Callable] = {
     'exe': r_exe, 'shlib': r_shlib, 'stlib': r_stlib, 'custom2': r_custom2,
 }
 RULE_IDS = list(BUILDERS)
+
+
+def _r_subdir_dirlink(follow: str):
+    """install_subdir() of a tree that holds a symlink to one of its own DIRECTORIES.  follow_symlinks "If true, dereferences
+    links and copies their target instead" (default true): the link becomes a directory holding copies of what the target
+    holds; false: it is installed as the same (relative) link."""
+    def build(s, m, ab):
+        r = Rule('subdir_dirlink_' + follow, s, m)
+        top, real, alias, b = nm(s, 'treel'), nm(s, 'real'), nm(s, 'alias'), nm(s, 'lb', '.txt')
+        r.files[top + '/' + real + '/' + b] = ('behind a directory link\n', 0o644)
+        r.links[top + '/' + alias] = real
+        d = 'share/' + nm(s, 'ldir')
+        kw = '' if follow == 'unset' else ', follow_symlinks: ' + follow
+        r.snippet = 'install_subdir(%s, install_dir: %s%s%s)' % (q(top), q(d), kw, _modekw(m))
+        base = d + '/' + top
+        r.entries.append(Entry(('rel', base), 'dir', r))
+        r.entries.append(Entry(('rel', base + '/' + real), 'dir', r))
+        r.entries.append(Entry(('rel', base + '/' + real + '/' + b), 'file', r, src=('src', top + '/' + real + '/' + b), mode=MODE_BITS[m]))
+        if follow == 'false':
+            r.entries.append(Entry(('rel', base + '/' + alias), 'link', r, target=real, oc_unspec=True, dirlink='nofollow'))
+        else:
+            r.entries.append(Entry(('rel', base + '/' + alias), 'dir', r, dirlink='follow'))
+            r.entries.append(Entry(('rel', base + '/' + alias + '/' + b), 'file', r, src=('src', top + '/' + real + '/' + b), mode=MODE_BITS[m],
+                                   dirlink='follow'))
+        r.plan.append(('install_subdirs', ('src', top), ('rel', base), None))
+        return r
+    return build
+
+
+# rule variants that are enumerated by a family of their own (family L), not in the single / pair / history families
+EXTRA_BUILDERS: T.Dict[str, T.Callable] = {'subdir_dirlink_' + f: _r_subdir_dirlink(f) for f in ('unset', 'true', 'false')}
 KIND_OF = {rid: rid.split('_')[0] for rid in RULE_IDS}
 
 
@@ -625,7 +659,7 @@ def make_project(rules: T.Sequence[T.Tuple[str, str, str]], absbase: str, with_s
             assert guess is not None
             out += guess_rules(rid.split(':', 1)[1], s, m, absbase, prefix, DIRSETS[guess['dirset']], guess.get('only'))
         else:
-            out.append(BUILDERS[rid](s, m, absbase))
+            out.append((BUILDERS.get(rid) or EXTRA_BUILDERS[rid])(s, m, absbase))
     return Project(out, with_sub, sub_style)
 
 
